@@ -205,7 +205,7 @@ fn dev_ev(case: &Value, out: &mut Vec<Value>) {
     o.insert("ev".into(), json!("dev"));
     let (l1, l2) = (lay_of(case, "lay1", &shape), lay_of(case, "lay2", &shape));
     let alias = jstr(case, "alias", "");
-    macro_rules! measures { ($x:expr, $y:expr, $toi:expr, $tof:expr, $mv:expr) => {{
+    macro_rules! measures { ($x:expr, $y:expr, $toi:expr, $tof:expr, $mv:expr, $hi:expr) => {{
         let (x, y) = ($x, $y);
         let f = |r: Result<Result<f64, ndarray_stats::errors::MultiInputError>, ()>, sq: bool| -> Value { match r { Ok(Ok(v)) => quant(if sq { v * v } else { v }, qe), Ok(Err(_)) => json!(ERR_Q), Err(()) => json!(ERR_Q) } };
         json!({
@@ -219,9 +219,10 @@ fn dev_ev(case: &Value, out: &mut Vec<Value>) {
             "mse": f(guarded(|| x.mean_sq_err(&y)), false),
             "rmse2": f(guarded(|| x.root_mean_sq_err(&y)), true),
             "psnr": f(guarded(|| x.peak_signal_to_noise_ratio(&y, $mv)), false),
+            "psnr_hi": f(guarded(|| x.peak_signal_to_noise_ratio(&y, $hi)), false),
         })
     }}; }
-    macro_rules! int_ty { ($t:ty) => {{
+    macro_rules! int_ty { ($t:ty, $hik:expr) => {{
         // optional large common offset 2^ibase (differences stay small and exact)
         let ibase = case.get("ibase").and_then(|x| x.as_i64()).unwrap_or(-1);
         let mut off = <$t>::from(0i32);
@@ -232,21 +233,27 @@ fn dev_ev(case: &Value, out: &mut Vec<Value>) {
         let (va, vb) = (l1.view(&pa), l2.view(&pb));
         let toi = |v: $t, _pow: i32| -> Value { json!(num_traits::ToPrimitive::to_i64(&v).unwrap_or(-1)) };
         let mv = <$t>::from(maxv as i32);
-        o.insert("fwd".into(), measures!(va.clone(), vb.clone(), toi, 0, mv.clone()));
-        o.insert("swp".into(), measures!(vb.clone(), va.clone(), toi, 0, mv.clone()));
-        o.insert("same".into(), measures!(va.clone(), va.to_owned(), toi, 0, mv.clone()));
+        // the same peak scaled by 10^hik: the ratio moves by exactly 20 hik dB (and maxv^2 no longer fits the element type)
+        let mut hi = mv.clone();
+        for _ in 0..$hik { hi = hi * <$t>::from(10i32); }
+        o.insert("hik".into(), json!($hik));
+        o.insert("fwd".into(), measures!(va.clone(), vb.clone(), toi, 0, mv.clone(), hi.clone()));
+        o.insert("swp".into(), measures!(vb.clone(), va.clone(), toi, 0, mv.clone(), hi.clone()));
+        o.insert("same".into(), measures!(va.clone(), va.to_owned(), toi, 0, mv.clone(), hi.clone()));
         o.insert("S".into(), json!(1));
     }}; }
-    macro_rules! float_ty { ($t:ty) => {{
+    macro_rules! float_ty { ($t:ty, $hik:expr) => {{
         let xa: Vec<$t> = a.iter().map(|&v| v as $t / 4.0).collect();
         let xb: Vec<$t> = b.iter().map(|&v| v as $t / 4.0).collect();
         let (pa, pb) = (l1.build(&xa, |_| 77.0 as $t), l2.build(&xb, |_| 55.0 as $t));
         let (va, vb) = (l1.view(&pa), l2.view(&pb));
         let toi = |v: $t, pow: i32| -> Value { quant(v as f64, if pow == 2 { 4 } else { 2 }) };
         let mv = maxv as $t / 4.0;
-        o.insert("fwd".into(), measures!(va.clone(), vb.clone(), toi, 0, mv));
-        o.insert("swp".into(), measures!(vb.clone(), va.clone(), toi, 0, mv));
-        o.insert("same".into(), measures!(va.clone(), va.to_owned(), toi, 0, mv));
+        let hi = mv * (10.0 as $t).powi($hik);
+        o.insert("hik".into(), json!($hik));
+        o.insert("fwd".into(), measures!(va.clone(), vb.clone(), toi, 0, mv, hi));
+        o.insert("swp".into(), measures!(vb.clone(), va.clone(), toi, 0, mv, hi));
+        o.insert("same".into(), measures!(va.clone(), va.to_owned(), toi, 0, mv, hi));
         o.insert("S".into(), json!(4));
     }}; }
     // two different views of ONE buffer starting at the same element (the case says how b is derived from a's buffer)
@@ -256,18 +263,19 @@ fn dev_ev(case: &Value, out: &mut Vec<Value>) {
         if alias == "t" {
             let k = (base.len() as f64).sqrt() as usize;
             let m = Array2::from_shape_vec((k, k), base).unwrap();
-            o.insert("fwd".into(), measures!(m.view(), m.t(), toi, 0, $mv));
-            o.insert("swp".into(), measures!(m.t(), m.view(), toi, 0, $mv));
-            o.insert("same".into(), measures!(m.view(), m.view(), toi, 0, $mv));
+            o.insert("fwd".into(), measures!(m.view(), m.t(), toi, 0, $mv, $mv));
+            o.insert("swp".into(), measures!(m.t(), m.view(), toi, 0, $mv, $mv));
+            o.insert("same".into(), measures!(m.view(), m.view(), toi, 0, $mv, $mv));
         } else {
             let m = Array1::from(base);
             let h = m.len() / 2;
             let (va, vb) = (m.slice(ndarray::s![..h]), m.slice(ndarray::s![..2 * h;2]));
-            o.insert("fwd".into(), measures!(va.clone(), vb.clone(), toi, 0, $mv));
-            o.insert("swp".into(), measures!(vb.clone(), va.clone(), toi, 0, $mv));
-            o.insert("same".into(), measures!(va.clone(), va.clone(), toi, 0, $mv));
+            o.insert("fwd".into(), measures!(va.clone(), vb.clone(), toi, 0, $mv, $mv));
+            o.insert("swp".into(), measures!(vb.clone(), va.clone(), toi, 0, $mv, $mv));
+            o.insert("same".into(), measures!(va.clone(), va.clone(), toi, 0, $mv, $mv));
         }
         o.insert("S".into(), json!($s));
+        o.insert("hik".into(), json!(0));
     }}; }
     if !alias.is_empty() {
         match ty {
@@ -276,11 +284,11 @@ fn dev_ev(case: &Value, out: &mut Vec<Value>) {
         }
     } else {
     match ty {
-        "i32" => int_ty!(i32),
-        "i64" => int_ty!(i64),
-        "bigint" => int_ty!(num_bigint::BigInt),
-        "f32" => float_ty!(f32),
-        _ => float_ty!(f64),
+        "i32" => int_ty!(i32, 3),
+        "i64" => int_ty!(i64, 9),
+        "bigint" => int_ty!(num_bigint::BigInt, 9),
+        "f32" => float_ty!(f32, 3),
+        _ => float_ty!(f64, 9),
     }
     }
     o.insert("shape".into(), json!(shape));
@@ -454,6 +462,19 @@ pub fn gen(seed: u64, count: usize, tier: &str, params: &Params) -> Vec<Value> {
                 cases.push(json!({"ev": "summ", "stat": "moments", "ty": ty, "r": r, "w": [], "S": 1, "WS": 1, "p": rng.range(0, 4), "bexp": -1,
                                   "sexp": if ty == "f32" { 126 } else { 1022 }, "qe": 2, "tol": 2, "shape": shape, "axis": 0, "lay1": lay1, "lay2": lay2}));
             }
+            "corr" if rng.chance(1, 5) => {
+                // many observations (block boundaries 8, 16, 32, 64 and their neighbours): covariance against the definition,
+                // correlation by its laws (the exact squared-correlation identity does not fit 31 bits here)
+                let nv = rng.range(1, 2) as usize;
+                let no = *rng.pick(&[7usize, 8, 9, 15, 16, 17, 24, 31, 32, 33, 48, 63, 64]);
+                let rows: Vec<Vec<i64>> = (0..nv).map(|_| { let mut r: Vec<i64> = (0..no).map(|_| rng.range(-1, 1)).collect(); if r.iter().all(|&v| v == r[0]) { r[0] += 1; } r }).collect();
+                let fancy = rng.chance(1, 2);
+                let lay = random_lay(&mut rng, &[nv, no], fancy);
+                let ty = *rng.pick(&["f64", "f64", "f32"]);
+                let sexp = if ty == "f32" { *rng.pick(&[1i64, 10, 40, -30]) } else { *rng.pick(&[1i64, 20, 200, 400, -300]) };
+                cases.push(json!({"ev": "corr", "ty": ty, "rows": rows, "S": 1, "d": rng.range(0, 2), "bexp": if ty == "f32" { -1 } else { *rng.pick(&[-1i64, 10, 20]) },
+                                  "qe": 6, "tol": 2, "k": rng.below(nv as u64), "sexp": sexp, "lay1": lay.to_json()}));
+            }
             "corr" => {
                 let nv = rng.range(1, 4) as usize;
                 let no = rng.range(2, 5) as usize;
@@ -493,7 +514,7 @@ pub fn gen(seed: u64, count: usize, tier: &str, params: &Params) -> Vec<Value> {
                 cases.push(json!({"ev": "devnan", "a": a, "b": b, "shape": shape, "lay1": lay1, "lay2": lay2}));
             }
             "dev" => {
-                let n = rng.range(1, if big { 16 } else { 9 }) as usize;
+                let n = if rng.chance(1, 5) { rng.range(10, 40) } else { rng.range(1, if big { 16 } else { 9 }) } as usize;
                 let shape = random_shape(&mut rng, n);
                 let (lay1, lay2) = two_lays(&mut rng, &shape);
                 let a: Vec<i64> = (0..n).map(|_| rng.range(-12, 12)).collect();
@@ -502,7 +523,7 @@ pub fn gen(seed: u64, count: usize, tier: &str, params: &Params) -> Vec<Value> {
                 let ty = *rng.pick(&["i32", "i64", "bigint", "f32", "f64"]);
                 // integers far beyond 2^53 with small differences: the measures are functions of the exact integer distances
                 let ibase: i64 = match ty { "i64" => *rng.pick(&[-1i64, -1, 55, 61]), "bigint" => *rng.pick(&[-1i64, 70, 200]), _ => -1 };
-                cases.push(json!({"ev": "dev", "ty": ty, "a": a, "b": b, "qe": 8, "tol": 2, "maxv": *rng.pick(&[1i64, 4, 10, 40]), "ibase": ibase,
+                cases.push(json!({"ev": "dev", "ty": ty, "a": a, "b": b, "qe": 8, "tol": 2, "maxv": *rng.pick(&[1i64, 4, 10, 40, 100]), "ibase": ibase,
                                   "shape": shape, "lay1": lay1, "lay2": lay2}));
             }
             _ => {
